@@ -294,17 +294,17 @@ def build(u):
          spec=[("ensures final(state).tr@ =~= old(state).tr@ + hash_events(*self),", ["MODEL"])])
     u.emit("}\n")
     for w, ft in (("32", "f32"), ("64", "f64")):
-        u.fn(F, H, "cmp_f" + w, ret="r_", props=P18 + P12, key="hashable_value::cmp_f" + w, vpath="cmp_f" + w,
+        u.fn(F, H, "cmp_f" + w, ret="r_", props=P18 + P12, key="hashable_value::cmp_f" + w, vpath="cmp_f" + w, params=["l", "r"],
              rules=[make_r_sub("R-eq", r"OrderedFloat\(\*l\)\.eq\(&OrderedFloat\(\*r\)\)", "vof_eq(*l, *r)")],
              spec="ensures r_ == (match (*l, *r) { (Some(a), Some(b)) => ofeq(a, b), (None, None) => true, _ => false }),")
-        u.fn(F, H, "hash_f" + w, props=P18 + ["MODEL"], key="hashable_value::hash_f" + w, vpath="hash_f" + w,
+        u.fn(F, H, "hash_f" + w, props=P18 + ["MODEL"], key="hashable_value::hash_f" + w, vpath="hash_f" + w, params=["v", "state"],
              rules=[make_r_sub("R-generic", r"fn hash_f%s<H: Hasher>\(v: &Option<%s>, state: &mut H\)" % (w, ft), "fn hash_f%s(v: &Option<%s>, state: &mut VHasher)" % (w, ft)),
                     make_r_sub("R-hash", r"OrderedFloat\(\*v\)\.hash\(state\)", "vof_hash(*v, state)"), make_r_sub("R-hash", r'"null"\.hash\(state\)', 'vhash_str("null", state)')],
              spec=[("ensures final(state).tr@ =~= old(state).tr@ + (match *v { Some(f) => seq![HEv::OKey(ofkey(f))], None => seq![HEv::Str(\"null\"@)] }),", ["MODEL"])])
-    u.fn(F, H, "cmp_json", ret="r_", props=P18 + P12, key="hashable_value::cmp_json", vpath="cmp_json",
+    u.fn(F, H, "cmp_json", ret="r_", props=P18 + P12, key="hashable_value::cmp_json", vpath="cmp_json", params=["l", "r"],
          rules=[make_r_sub("R-eq", r"serde_json::to_string\(l\)\s*\.unwrap\(\)\s*\.eq\(&serde_json::to_string\(r\)\.unwrap\(\)\)", "vstr_eq(&vjson_str(l), &vjson_str(r))")],
          spec="ensures r_ == (match (*l, *r) { (Some(a), Some(b)) => json_text(*a) == json_text(*b), (None, None) => true, _ => false }),")
-    u.fn(F, H, "hash_json", props=P18 + ["MODEL"], key="hashable_value::hash_json", vpath="hash_json",
+    u.fn(F, H, "hash_json", props=P18 + ["MODEL"], key="hashable_value::hash_json", vpath="hash_json", params=["v", "state"],
          rules=[make_r_sub("R-generic", r"fn hash_json<H: Hasher>\(v: &Option<Box<Json>>, state: &mut H\)", "fn hash_json(v: &Option<Box<Json>>, state: &mut VHasher)"),
                 make_r_sub("R-hash", r"serde_json::to_string\(v\)\.unwrap\(\)\.hash\(state\)", "vhash_string(vjson_str(v), state)"), make_r_sub("R-hash", r'"null"\.hash\(state\)', 'vhash_str("null", state)')],
          spec=[("ensures final(state).tr@ =~= old(state).tr@ + (match *v { Some(j) => seq![HEv::Str(json_text(*j))], None => seq![HEv::Str(\"null\"@)] }),", ["MODEL"])])
